@@ -72,6 +72,7 @@ class MidCircuitWorld(World):
         self.shots = get_backend("cirq", n_shots=self.config["n_shots"])
         self.leaves_seen = set()
         self.sig = set()
+        self.prog_pool = []
 
     def signature(self):
         return tuple(sorted(self.sig))[-6:]
@@ -144,6 +145,8 @@ class MidCircuitWorld(World):
         init = C.gen_state(rng, n) if rng.random() < cfg["init_p"] else None
         mode = rng.choice(["exact", "exact", "shots", "shots", "shots", "applied", "desired_shots"])
         op = {"k": mode, "gates": gates, "n": n, "init": init, "ctrl": ctrl}
+        if self.prog_pool and rng.random() < 0.3:
+            op["reuse"] = rng.randrange(8)
         if mode == "desired_shots":
             op["branch"] = rng.randrange(64)
             op["zero"] = cfg["faults"] and self.ctx.faults.random() < 0.15
@@ -170,12 +173,25 @@ class MidCircuitWorld(World):
 
     def apply(self, op):
         ctx, V, k = self.ctx, [], op["k"]
+        pe = None
+        if op.get("reuse") is not None and self.prog_pool:
+            # a long-lived circuit object (with its controller) simulated again, in another mode / with another initial state
+            pe = self.prog_pool[op["reuse"] % len(self.prog_pool)]
+            ctx.probe("C10.circuit_object_simulated_again")
+            keep = {kk: op[kk] for kk in op if kk not in ("gates", "n", "ctrl", "init")}
+            init_j = op.get("init") if op.get("init") is not None and len(op["init"]) == 2 ** pe["n"] else None
+            op = dict(keep, gates=pe["gates"], n=pe["n"], ctrl=pe["ctrl"], init=init_j)
+            circ, sut_ctrl, ref_ctrl = pe["circ"], pe["sut_ctrl"], pe["ref_ctrl"]
         n = op["n"]
-        sut_ctrl, ref_ctrl = self._control(op.get("ctrl"))
-        try:
-            circ = D.mk_circuit(op["gates"], n, sut_ctrl)
-        except Exception as ex:
-            raise HarnessError(f"generator produced an unbuildable circuit: {ex!r}")
+        if pe is None:
+            sut_ctrl, ref_ctrl = self._control(op.get("ctrl"))
+            try:
+                circ = D.mk_circuit(op["gates"], n, sut_ctrl)
+            except Exception as ex:
+                raise HarnessError(f"generator produced an unbuildable circuit: {ex!r}")
+            if n <= 5:
+                self.prog_pool.append({"circ": circ, "sut_ctrl": sut_ctrl, "ref_ctrl": ref_ctrl, "gates": op["gates"], "n": n, "ctrl": op.get("ctrl")})
+                self.prog_pool = self.prog_pool[-3:]
         init = C.state_from_j(op["init"]) if op.get("init") is not None else None
         st0 = init if init is not None else R.zero_state(n)
         try:
